@@ -549,7 +549,12 @@ def raw_observe(ctx, data):
 
 
 # ---------------------------------------------------------------- crash, recover in place, continue, crash again
-def double_crash(hist, ctx, ck, tag, pool_size, rng, tier, forced=None):
+def is_listed(ck, sig):
+    import re as _re
+    return any(k.get('status', 'open') == 'open' and _re.fullmatch(k['signature'], sig) for k in ck.known)
+
+
+def double_crash(hist, ctx, ck, tag, pool_size, rng, tier, forced=None, levels=1):
     """(crash_recover_continue on the real code) materialise the WHOLE directory at a first cut that leaves
     at least a full header behind the committed end, reopen it in place (the recovery leaves Data.fs.trN),
     run a second history on top, and judge every cut of the second run reopened next to ALL side files.
@@ -563,8 +568,10 @@ def double_crash(hist, ctx, ck, tag, pool_size, rng, tier, forced=None):
                 cands += [[k, nb] for nb in sorted({23, 24, len(e[3]) // 2, len(e[3]) - 1}) if 23 <= nb < len(e[3])]
             elif k > 0:
                 cands.append([k, None])         # complete vote write, status byte still 'c'
+    forced_then = None
     if forced:
         picks = [(forced[0], forced[1])]
+        forced_then = forced[2] if len(forced) > 2 else None
     else:
         picks = []
         for c in rng.sample(cands, min(len(cands), 2)):
@@ -587,6 +594,17 @@ def double_crash(hist, ctx, ck, tag, pool_size, rng, tier, forced=None):
                 ck.count('second-crash-cuts')
         for sig, what, cut2 in res2['violations']:
             out.append((sig, what, dict(history=hist, cut=c1, then=dict(history=h2, cut=cut2))))
+        ctx2 = res2['ctx']
+        if (levels > 1 or forced_then) and not [v for v in res2['violations'] if not is_listed(ck, v[0])] \
+                and ctx2.rr is not None and hasattr(ctx2, 'ends') \
+                and (i == 0 or forced_then):
+            # … and a third crash after the second recovery
+            f3 = (forced_then['cut'], forced_then['history'], forced_then.get('then')) if forced_then else None
+            for sig, what, case3 in double_crash(h2, ctx2, ck, '%s-x%d' % (tag, i), pool_size, rng, tier, forced=f3,
+                                                 levels=levels - 1):
+                ck.count('third-crash-violations')
+                out.append((sig, what, dict(history=hist, cut=c1, then=case3)))
+            ck.count('third-crash-runs')
     return out
 
 
@@ -742,7 +760,8 @@ def main(argv=None):
                 if j['case']['then'].get('cut'):
                     FORCE_CUTS.append(list(j['case']['then']['cut']))
                 for sig, what, case in double_crash(j['case']['history'], ctx0, ck, 'replay', 1, ck.rng, 'quick',
-                                                    forced=(j['case']['cut'], j['case']['then']['history'])):
+                                                    forced=(j['case']['cut'], j['case']['then']['history'],
+                                                            j['case']['then'].get('then'))):
                     ck.violation(sig, what, case)
             hists = []
     else:
@@ -799,7 +818,8 @@ def main(argv=None):
         if ctx.rr is not None and not [v for v in res['violations'] if not listed(v[0])] and \
                 (ck.replay_path is None) and \
                 len(ctx.rr.final) <= 20000 and hi % 2 == 0:
-            for sig, what, case in double_crash(hist, ctx, ck, 'h%d' % hi, pool, ck.rng, tier):
+            for sig, what, case in double_crash(hist, ctx, ck, 'h%d' % hi, pool, ck.rng, tier,
+                                                levels=2 if (tier == 'thorough' or hi % 6 == 0) else 1):
                 ck.violation(sig, what, case)
         if ctx.rr is not None and hasattr(ctx, 'ends') and len(ctx.rr.final) <= 20000:
             cb = clock_back_reopen(ctx, ck, 'h%d' % hi)
